@@ -41,7 +41,8 @@ Fixpoint after_error (evs : list ev) (seen_err : bool) (clean : bool) : bool * b
    - no exception escaped the tick;
    - if the operation ended in the error state (set_error_state called, nothing changed the run state afterwards):
      paused, Method Status Error, and System State Paused (or Restarting, when a Restart queued earlier began in the same tick);
-   - responsiveness: once the user's Stop has been accepted the engine is Stopped within `patience` ticks *)
+   - responsiveness: once the user's Stop has been accepted the run is ended (clear_run_id) or the engine is Stopped within
+     `patience` ticks (a Restart the user issues after the Stop ends the run too and then starts the next one) *)
 Definition patience : nat := 4.
 Fixpoint walk (os : list op) (vs : EngRun.output) (deadline : option nat) : bool :=
   match os, vs with
@@ -50,7 +51,7 @@ Fixpoint walk (os : list op) (vs : EngRun.output) (deadline : option nat) : bool
       negb (existsb is_crash (v_events v))
       && (let '(err, clean) := after_error (v_events v) false false in
           if err && clean then flag v 1 && flag v 4 && flag v 5 && (sys_eqb (v_sys v) Paused || sys_eqb (v_sys v) Restarting) else true)
-      && (let stopped := sys_eqb (v_sys v) Stopped in
+      && (let stopped := sys_eqb (v_sys v) Stopped || existsb (fun x => match x with EStoppedRun => true | _ => false end) (v_events v) in
           let dl := if stopped then None
                     else match o, deadline with
                          | OUser _ Stop, None => if flag v 6 then Some patience else None
